@@ -18,7 +18,7 @@ func longRuns(c *corr.Ctx) {
 	}
 	rg := c.Rng
 	pick := func(i int) (n int, huge bool) {
-		if !c.Quick() && i%8 == 0 {
+		if !c.Quick() && i == 0 { // one per codec: the models' list appends make these quadratic
 			return 65537 + rg.IntN(300), true
 		}
 		return 257 + rg.IntN(600), false
